@@ -167,6 +167,9 @@ fn enum_type<'a>(input: &mut &'a [u8]) -> ModalResult<Type<'a>, InputError<&'a [
 /// Determines if it's a struct by looking for ':' character.
 fn inline_type<'a>(input: &mut &'a [u8]) -> ModalResult<Type<'a>, InputError<&'a [u8]>> {
     // Look ahead to see if this contains a colon (indicating struct)
+    if !input.starts_with(b"(") {
+        return Err(ErrMode::Backtrack(ParserError::from_input(input)));
+    }
     if let Some(pos) = input.iter().position(|&b| b == b')') {
         let content = &input[1..pos]; // Skip opening paren
         if content.contains(&b':') {
